@@ -58,6 +58,7 @@ func (r *Value) set(value proto.Message, request WriteRequest) (proto.Message, e
 		return nil, err
 	}
 
+	var changeTime time.Time // the time saved with the value, also reported by the change event
 	disarm := timeoutAlarm(time.Second, "GetAndUpdate took too long")
 	_, newValue, err := GetAndUpdate(
 		&r.mu,
@@ -67,7 +68,8 @@ func (r *Value) set(value proto.Message, request WriteRequest) (proto.Message, e
 		request.changeFn(writer, value),
 		func(message proto.Message) {
 			r.value = message
-			r.changeTime = request.updateTime(r.clock)
+			changeTime = request.updateTime(r.clock)
+			r.changeTime = changeTime
 		},
 	)
 	disarm()
@@ -80,7 +82,7 @@ func (r *Value) set(value proto.Message, request WriteRequest) (proto.Message, e
 	defer cancel()
 	r.bus.Send(ctx, &ValueChange{
 		Value:      newValue,
-		ChangeTime: request.updateTime(r.clock),
+		ChangeTime: changeTime,
 	})
 	if errors.Is(ctx.Err(), context.DeadlineExceeded) {
 		return nil, errors.New("bus.Send blocked for too long")
